@@ -130,9 +130,9 @@ impl<'text> Parser<'text> {
             self.scanner.expect('\n')?;
             return Ok(EvalString::new(Vec::new()));
         }
-        let result = self.read_eval(false);
+        let result = self.read_eval(false)?;
         self.scanner.expect('\n')?;
-        result
+        Ok(result)
     }
 
     /// Read a collection of `  foo = bar` variables, with leading indent.
